@@ -472,7 +472,106 @@ def op_gauge_total_charge(rng, chinfo, dtype):
     return c
 
 
-OPS = [op_chain, op_multi_combine_split, op_gauge_total_charge, op_tensordot, op_outer, op_inner, op_trace, op_transpose, op_conj, op_lincomb, op_combine_split, op_take_slice,
+def op_misc_elementwise(rng, chinfo, dtype):
+    """iswapaxes, unary_blockwise, complex_conj, ibinary_blockwise"""
+    import tenpy.linalg.np_conserved as npc
+    if np.issubdtype(np.dtype(dtype), np.integer):
+        return None
+    rk = int(rng.integers(2, 4))
+    legs = _legs(rng, chinfo, rk)
+    a = gen.random_array(rng, legs, dtype, labels=_labels(rk))
+    v = int(rng.integers(0, 5))
+    if v == 0:
+        i, j = [int(x) for x in rng.permutation(rk)[:2]]
+        r = a.copy(deep=True).iswapaxes(i, j)
+        labs = _labels(rk)
+        labs[i], labs[j] = labs[j], labs[i]
+        return Case('iswapaxes', [a], r, np.swapaxes(a.to_ndarray(), i, j), labs, a.qtotal.copy())
+    if v == 1:
+        f = [np.real, np.imag, np.negative][int(rng.integers(0, 3))]
+        return Case(f'unary_blockwise({f.__name__})', [a], a.unary_blockwise(f), f(a.to_ndarray()), _labels(rk), a.qtotal.copy())
+    if v == 2:
+        return Case('complex_conj', [a], a.complex_conj(), a.to_ndarray().conj(), _labels(rk), a.qtotal.copy())
+    b = gen.random_array(rng, legs, dtype, qtotal=a.qtotal, labels=_labels(rk))
+    if v == 3:
+        r = a.copy(deep=True).ibinary_blockwise(np.add, b)
+        return Case('ibinary_blockwise(np.add)', [a, b], r, a.to_ndarray() + b.to_ndarray(), _labels(rk), a.qtotal.copy())
+    r = a.copy(deep=True).ibinary_blockwise(np.subtract, b)
+    return Case('ibinary_blockwise(np.subtract)', [a, b], r, a.to_ndarray() - b.to_ndarray(), _labels(rk), a.qtotal.copy())
+
+
+def op_add_leg_eye_block(rng, chinfo, dtype):
+    """add_leg (inverse of take_slice), eye_like, get_block, drop_charge"""
+    import tenpy.linalg.np_conserved as npc
+    rk = int(rng.integers(1, 4))
+    a = gen.random_array(rng, _legs(rng, chinfo, rk), dtype, labels=_labels(rk))
+    v = int(rng.integers(0, 4))
+    if v == 0:
+        leg = gen.random_leg(rng, chinfo)
+        i = int(rng.integers(0, leg.ind_len))
+        ax = int(rng.integers(0, rk + 1)) if rk else 0
+        if ax == rk:
+            return None      # (the new leg is inserted *before* an existing axis)
+        r = a.add_leg(leg, i, ax, 'new')
+        shp = list(a.shape)
+        shp.insert(ax, leg.ind_len)
+        exp = np.zeros(shp, dtype=a.to_ndarray().dtype)
+        sl = [slice(None)] * len(shp)
+        sl[ax] = i
+        exp[tuple(sl)] = a.to_ndarray()
+        labs = _labels(rk)
+        labs.insert(ax, 'new')
+        c = Case('add_leg', [a], r, exp, labs, chinfo.make_valid(a.qtotal + leg.get_charge(leg.get_qindex(i)[0])))
+        c.roundtrip = (r.take_slice(i, ax), a.to_ndarray(), _labels(rk))
+        return c
+    if v == 1:
+        ax = int(rng.integers(0, rk))
+        r = npc.eye_like(a, ax, labels=['x', 'y'])
+        return Case('eye_like', [a], r, np.eye(a.shape[ax]), ['x', 'y'], chinfo.make_valid())
+    if v == 2:
+        if not len(a._data):
+            return None
+        k = int(rng.integers(0, len(a._data)))
+        qi = a._qdata[k].copy()
+        blk = a.get_block(qi)
+        sl = tuple(slice(l.slices[q], l.slices[q + 1]) for l, q in zip(a.legs, qi))
+        return Case('get_block', [a], np.array(blk), a.to_ndarray()[sl])
+    if chinfo.qnumber == 0:
+        return None
+    which = int(rng.integers(0, chinfo.qnumber))
+    r = a.drop_charge(which)
+    c = Case('drop_charge', [a], r, a.to_ndarray(), _labels(rk), None)
+    return c
+
+
+def op_grid_outer(rng, chinfo, dtype):
+    """grid_outer: a grid of Arrays (None = zero) becomes one Array with res[idx] == grid[idx]"""
+    import tenpy.linalg.np_conserved as npc
+    from tenpy.linalg.charges import LegCharge
+    if np.issubdtype(np.dtype(dtype), np.integer):
+        return None
+    p = gen.random_leg(rng, chinfo, max_size=2)
+    n0, n1 = int(rng.integers(1, 4)), int(rng.integers(1, 4))
+    # entries of total charge zero; grid legs with trivial charges (one block per grid index)
+    triv0 = LegCharge.from_qflat(chinfo, np.zeros((n0, chinfo.qnumber), dtype=int), 1)
+    triv1 = LegCharge.from_qflat(chinfo, np.zeros((n1, chinfo.qnumber), dtype=int), -1)
+    grid = [[None] * n1 for _ in range(n0)]
+    exp = np.zeros((n0, n1, p.ind_len, p.ind_len), dtype=np.dtype(dtype))
+    ops = []
+    for i in range(n0):
+        for j in range(n1):
+            if rng.random() < 0.6:
+                g = gen.random_array(rng, [p, p.conj()], dtype, qtotal=chinfo.make_valid(), labels=['p', 'p*'])
+                grid[i][j] = g
+                ops.append(g)
+                exp[i, j] = g.to_ndarray()
+    if not ops:
+        return None
+    r = npc.grid_outer(grid, [triv0, triv1], grid_labels=['wL', 'wR'])
+    return Case('grid_outer', ops, r, exp, ['wL', 'wR', 'p', 'p*'], chinfo.make_valid())
+
+
+OPS = [op_chain, op_multi_combine_split, op_gauge_total_charge, op_misc_elementwise, op_add_leg_eye_block, op_grid_outer, op_tensordot, op_outer, op_inner, op_trace, op_transpose, op_conj, op_lincomb, op_combine_split, op_take_slice,
        op_getitem, op_getitem_oob, op_setitem, op_slice_getitem, op_setitem_slices, op_concatenate, op_scale_axis, op_permute,
        op_sort_legcharge, op_squeeze_addleg, op_norm, op_binary_scalar]
 
